@@ -86,6 +86,9 @@ class Run:
                 except fdb.Error:
                     sched.event("ret", op="connect", res="Error")
                     continue
+                except Exception as e:      # an exception class the specification does not allow here: TracePool rejects the event
+                    sched.event("ret", op="connect", res=type(e).__name__)
+                    continue
                 cid = conn.dbapi_connection.id
                 held[name] = cid
                 sched.event("ret", op="connect", res="ok", id=cid)
@@ -96,19 +99,25 @@ class Run:
                     if op != "soft":
                         held.pop(name, None)
                     sched.event("call", op=op)
-                    if op == "close":
-                        conn.close()
-                    elif op == "inv":
-                        conn.invalidate()
-                    elif op == "soft":
-                        conn.invalidate(soft=True)
-                    elif op == "poolinv":
-                        pool._invalidate(conn)
-                    elif op == "drop":
-                        conn = None
-                    else:
-                        raise ps.SchedError("unknown op %r" % op)
-                    sched.event("ret", op=op, res="ok")
+                    res = "ok"
+                    try:
+                        if op == "close":
+                            conn.close()
+                        elif op == "inv":
+                            conn.invalidate()
+                        elif op == "soft":
+                            conn.invalidate(soft=True)
+                        elif op == "poolinv":
+                            pool._invalidate(conn)
+                        elif op == "drop":
+                            conn = None
+                        else:
+                            raise ps.SchedError("unknown op %r" % op)
+                    except ps.SchedError:
+                        raise
+                    except Exception as e:  # releasing never raises in the specification: TracePool rejects the event
+                        res = type(e).__name__
+                    sched.event("ret", op=op, res=res)
                 conn = None
         return run
 
